@@ -36,6 +36,15 @@ def _calls(f, name_re):
     return [c for c in f.calls if re.search(name_re, c.short)]
 
 
+def _vcalls(prog, f, name_re):
+    """Call sites of f and of the private helpers / local closures it enters, in f's vocabulary (see h_A.vcalls)."""
+    return [v for v in H.vcalls(prog, f) if re.search(name_re, v.short)]
+
+
+def _sv(v, i):
+    return str(v.arg(i))
+
+
 def _tried(f, c):
     """The result of call c is consumed by `?` (directly, or after ok_or/map_err)."""
     t = c.target
@@ -96,15 +105,16 @@ def _deposit(ctx, prog):
     ctx.ob("deposit-valuation:execute_deposit-args", ok and neg_guard,
            "execute_deposit is called for sides %s with |pool_value(MaxAfterDeposit, true)| and only when that value is not negative (%s)" % (sides, neg_guard), where=f.where())
     # impact share per side: side_usd * impact / (long_usd + short_usd), floor of magnitude
-    shares = _calls(f, r"^MulDiv::checked_mul_div_with_signed_numerator$")
-    got = sorted((_s(c, 0), _s(c, 1), str(H.peel(H.arg_at(c, 2), calls=("Option::ok_or",)))) for c in shares)
+    SHARE = r"^MulDiv::checked_mul_div_with_signed_numerator$"
+    shares = _vcalls(prog, f, SHARE)
+    got = sorted((_sv(c, 0), _sv(c, 1), str(H.peel(c.arg(2), calls=("Option::ok_or",)))) for c in shares)
     PI = "Deposit::price_impact(self)?"
     tot = "CheckedAdd::checked_add(%s.long_token_usd_value, %s.short_token_usd_value)" % (PI, PI)
     want = sorted([("%s.long_token_usd_value" % PI, "%s.price_impact.value" % PI, tot), ("%s.short_token_usd_value" % PI, "%s.price_impact.value" % PI, tot)])
     ctx.ob("deposit-valuation:impact-share", got == want, "per-side impact = side_usd * impact / (long_usd + short_usd) with the floor mul-div: %s" % got, where=f.where())
     for c in ex:
         side = _s(c, 1)
-        v = H.arg_at(c, 3)
+        v = H.inline_calls(prog, f, H.arg_at(c, 3), SHARE)      # the share may be computed by a private helper
         fl = dict(v.a[1]) if v.k == "agg" else {}
         val = H.peel(fl.get("value"), calls=("Option::ok_or",)) if "value" in fl else None
         want_usd = "%s.%s_token_usd_value" % (PI, "long" if side == "true" else "short")
@@ -288,9 +298,9 @@ def _withdraw(ctx, prog):
     oa = _calls(f, r"^Withdrawal::output_amounts$")
     ctx.ob("order:withdraw:amounts-first", len(oa) == 1 and all(f.dominates(oa[0].bb, c.bb) for c in f.calls if re.search(r"(apply_delta|apply_delta_amount|burn)$", c.short)),
            "output_amounts() is evaluated (on the untouched market) before any pool delta or burn", where=f.where())
-    deltas = _calls(f, r"^BaseMarketMutExt::apply_delta$")
-    neg = all(H.is_call(H.peel(H.arg_at(c, 2)), r"^Unsigned::to_opposite_signed$") for c in deltas)
-    ctx.ob("order:withdraw:pool-decrease", sorted(_s(c, 1) for c in deltas) == ["false", "true"] and neg,
+    deltas = _vcalls(prog, f, r"^BaseMarketMutExt::apply_delta$")
+    neg = all(H.is_call(H.peel(c.arg(2)), r"^Unsigned::to_opposite_signed$") for c in deltas)
+    ctx.ob("order:withdraw:pool-decrease", sorted(_sv(c, 1) for c in deltas) == ["false", "true"] and neg,
            "both liquidity sides are DEcreased (to_opposite_signed) on withdrawal", where=f.where())
 
 
@@ -304,20 +314,20 @@ def _pool_value(ctx, prog):
     sides = _calls(f, r"pool_value_without_pnl_for_one_side$")
     got = sorted((_s(c, 2), _s(c, 3)) for c in sides)
     ctx.ob("pool-value-variance:sides", got == [("false", "maximize"), ("true", "maximize")], "liquidity sides valued with (is_long, maximize) = %s" % got, where=f.where())
-    pnl = _calls(f, r"^BaseMarketExt::pnl$")
-    got = sorted((_s(c, 1), _s(c, 2), _s(c, 3)) for c in pnl)
+    pnl = _vcalls(prog, f, r"^BaseMarketExt::pnl$")
+    got = sorted((_sv(c, 1), _sv(c, 2), _sv(c, 3)) for c in pnl)
     ctx.ob("pool-value-variance:pnl", got == [("prices.index_token_price", "false", "Not(maximize)"), ("prices.index_token_price", "true", "Not(maximize)")],
            "pnl(index price, is_long, maximize) called with %s — the subtracted pnl takes !maximize" % got, where=f.where())
-    caps = _calls(f, r"^MarketUtils::cap_pnl$")
+    caps = _vcalls(prog, f, r"^MarketUtils::cap_pnl$")
     okc = len(caps) == 2
     rows = []
     for c in caps:
-        side = _s(c, 1)
-        p = H.peel(H.arg_at(c, 2))
-        v = H.peel(H.arg_at(c, 3))
-        rows.append((side, str(p)[:60], str(v)[:80], _s(c, 4)))
+        side = _sv(c, 1)
+        p = H.peel(c.arg(2))
+        v = H.peel(c.arg(3))
+        rows.append((side, str(p)[:60], str(v)[:80], _sv(c, 4)))
         okc = okc and H.is_call(p, r"^BaseMarketExt::pnl$") and str(H.call_args(p)[2]) == side and H.is_call(v, r"pool_value_without_pnl_for_one_side$") \
-            and str(H.call_args(v)[2]) == side and _s(c, 4) == "pnl_factor"
+            and str(H.call_args(v)[2]) == side and _sv(c, 4) == "pnl_factor"
     ctx.ob("pool-value-variance:cap_pnl", okc and sorted(r[0] for r in rows) == ["false", "true"],
            "cap_pnl(is_long, pnl(is_long), side value(is_long), pnl_factor) — sides agree: %s" % rows, where=f.where())
     ip = [c for c in f.calls if c.short == "Price::pick_price" and re.search(r"index_token_price", _s(c, 0))]
@@ -338,7 +348,7 @@ def _pool_value(ctx, prog):
                 return "BORROWING"
             return None
         try:
-            lf = H.linform(H.ret_at(f, oks[0][0]), atom)
+            lf = H.linform(H.inline_calls(prog, f, H.ret_at(f, oks[0][0]), r"^MarketUtils::cap_pnl$"), atom)
         except H.NotLinear as ex:
             lf = {"nonlinear": str(ex)}
     want = {"SIDE[true]": 1, "SIDE[false]": 1, "BORROWING": 1, "PNL[true]": -1, "PNL[false]": -1, "IMPACT_POOL": -1}
